@@ -232,7 +232,7 @@ PROPS = {
     },
     'C20': {
         'families': [('kbu_ticks', ['KBU']), ('sc', ['SC-C20']), ('ss20', ['SS-C20'])],
-        'floors': {'KBU': 1, 'SC-C20': 26, 'SS-C20': 13},
+        'floors': {'KBU': 1, 'SC-C20': 26, 'SS-C20': 12},
         'title': 'Slider event stream has the legacy structure and timing',
     },
     'C18': {
